@@ -303,7 +303,9 @@ int macros_get_char(AsmContext *asm_context)
     if (stack_ptr < 0) { return CHAR_EOF; }
 
     // Pull the next char off the stack
-    ch = *macros->stack[stack_ptr];
+    // As getc() does, return the byte as an unsigned value: a 0xff in the
+    // text of a define is not CHAR_EOF.
+    ch = (uint8_t)*macros->stack[stack_ptr];
     macros->stack[stack_ptr]++;
 
     // If we have a char then break this loop and return (all is good)
